@@ -288,30 +288,11 @@ func (t tolr) zeroLen(s seg) bool {
 	return t.eq(ex, s.x0) && t.eq(ey, s.y0)
 }
 
-// normSegs: zero-length lines removed, exactly degenerate curves mapped to lines,
-// repeated closepaths merged: the simplifications the property allows.
-func (t tolr) normSegs(in []seg) []seg {
-	var out []seg
-	for _, s := range in {
-		if (s.k == 'C' || s.k == 'Q') && t.degenerate(s) {
-			ex, ey := s.end()
-			s = seg{k: 'L', v: []float64{ex, ey}, src: s.src, x0: s.x0, y0: s.y0, raw: s.raw}
-		}
-		if s.k == 'L' && t.zeroLen(s) {
-			continue
-		}
-		if s.k == 'Z' && len(out) > 0 && out[len(out)-1].k == 'Z' {
-			continue
-		}
-		out = append(out, s)
-	}
-	return out
-}
-
 type pathDiff struct {
-	cat    string
-	detail string
-	inIdx  int // index into the normalised input segments
+	cat     string
+	detail  string
+	inRaw   int // index into in.segs of the first input segment that has no counterpart (len = none left)
+	prevRaw int // index of the last input segment that was matched (-1 = none)
 }
 
 var coordNames = map[byte][]string{
@@ -321,36 +302,100 @@ var coordNames = map[byte][]string{
 	'A': {"arc-radius", "arc-radius", "arc-rotation", "arc-flag", "arc-flag", "end-point", "end-point"},
 }
 
-func comparePaths(in, out *pathInfo) *pathDiff {
-	t := tolr{scale: math.Max(in.maxAbs, out.maxAbs)}
-	a, b := t.normSegs(in.segs), t.normSegs(out.segs)
-	n := len(a)
-	if len(b) < n {
-		n = len(b)
-	}
-	for i := 0; i < n; i++ {
-		if a[i].k != b[i].k {
-			return &pathDiff{cat: "segment-kind", inIdx: i, detail: fmt.Sprintf("segment %d is %s in the input and %s in the output", i, descSeg(a[i]), descSeg(b[i]))}
+// lineLike: a line, or an exactly degenerate curve (both control points on end points),
+// which the property allows to be written as a line.
+func (t tolr) lineLike(s seg) bool { return s.k == 'L' || (s.k == 'C' || s.k == 'Q') && t.degenerate(s) }
+
+// match: same segment within tolerance. "" = match, otherwise what differs.
+func (t tolr) match(x, y seg) string {
+	switch {
+	case x.k == 'Z' || y.k == 'Z':
+		if x.k == y.k {
+			return ""
 		}
-		for j := range a[i].v {
-			same := t.eq(a[i].v[j], b[i].v[j])
-			if a[i].k == 'A' && (j == 3 || j == 4) {
-				same = a[i].v[j] == b[i].v[j]
+		return "segment-kind"
+	case x.k == y.k:
+		if (x.k == 'C' || x.k == 'Q') && t.lineLike(x) && t.lineLike(y) {
+			// two degenerate curves: only the end point counts
+			ex, ey := x.end()
+			fx, fy := y.end()
+			if t.eq(ex, fx) && t.eq(ey, fy) {
+				return ""
+			}
+			return "end-point"
+		}
+		for j := range x.v {
+			same := t.eq(x.v[j], y.v[j])
+			if x.k == 'A' && (j == 3 || j == 4) {
+				same = x.v[j] == y.v[j]
 			}
 			if !same {
-				return &pathDiff{cat: coordNames[a[i].k][j], inIdx: i, detail: fmt.Sprintf("segment %d: %s vs %s", i, descSeg(a[i]), descSeg(b[i]))}
+				return coordNames[x.k][j]
 			}
 		}
-	}
-	if len(a) != len(b) {
-		var x seg
-		side := "input"
-		if len(a) > n {
-			x = a[n]
-		} else {
-			x, side = b[n], "output"
+		return ""
+	case x.k != 'M' && y.k != 'M' && t.lineLike(x) && t.lineLike(y):
+		ex, ey := x.end()
+		fx, fy := y.end()
+		if t.eq(ex, fx) && t.eq(ey, fy) {
+			return ""
 		}
-		return &pathDiff{cat: "segment-count", inIdx: n, detail: fmt.Sprintf("%d vs %d segments; only the %s has segment %d: %s", len(a), len(b), side, n, descSeg(x))}
+		return "end-point"
+	}
+	return "segment-kind"
+}
+
+// comparePaths aligns the two segment lists. Allowed simplifications are applied only
+// where needed to align: a zero-length line (or degenerate curve of zero length) may be
+// missing on either side, a closepath directly after a closepath is the same closepath.
+func comparePaths(in, out *pathInfo) *pathDiff {
+	t := tolr{scale: math.Max(in.maxAbs, out.maxAbs)}
+	a, b := in.segs, out.segs
+	droppable := func(s []seg, i int) bool {
+		if s[i].k == 'Z' {
+			// ZZ: skip zero-length lines in between
+			for k := i - 1; k >= 0; k-- {
+				if s[k].k == 'Z' {
+					return true
+				}
+				if !(t.lineLike(s[k]) && t.zeroLen(s[k])) {
+					return false
+				}
+			}
+			return false
+		}
+		return t.lineLike(s[i]) && t.zeroLen(s[i])
+	}
+	i, j, prev := 0, 0, -1
+	for i < len(a) || j < len(b) {
+		what := "segment-count"
+		if i < len(a) && j < len(b) {
+			what = t.match(a[i], b[j])
+			if what == "" {
+				prev = i
+				i++
+				j++
+				continue
+			}
+		}
+		if i < len(a) && droppable(a, i) {
+			i++
+			continue
+		}
+		if j < len(b) && droppable(b, j) {
+			j++
+			continue
+		}
+		d := &pathDiff{cat: what, inRaw: i, prevRaw: prev}
+		switch {
+		case i < len(a) && j < len(b):
+			d.detail = fmt.Sprintf("input segment %d is %s, the output has %s there", i, descSeg(a[i]), descSeg(b[j]))
+		case i < len(a):
+			d.detail = fmt.Sprintf("input segment %d (%s) has no counterpart: the output ends after %d segments", i, descSeg(a[i]), len(b))
+		default:
+			d.detail = fmt.Sprintf("the output has an extra segment %d: %s", j, descSeg(b[j]))
+		}
+		return d
 	}
 	return nil
 }
@@ -434,7 +479,6 @@ func (t tolr) removable(p seg) bool {
 func classifyPathDiff(d *pathDiff, s string, in *pathInfo) string {
 	sh := pathShapes(s, in)
 	t := tolr{scale: in.maxAbs}
-	norm := t.normSegs(in.segs)
 	if sh["N16"] {
 		return knownSig["N16"]
 	}
@@ -442,12 +486,9 @@ func classifyPathDiff(d *pathDiff, s string, in *pathInfo) string {
 		return knownSig["N15"]
 	}
 	// raw input segments between the last agreeing segment and the differing one
-	lo, hi := 0, len(in.segs)-1
-	if d.inIdx > 0 && d.inIdx-1 < len(norm) {
-		lo = norm[d.inIdx-1].raw + 1
-	}
-	if d.inIdx < len(norm) {
-		hi = norm[d.inIdx].raw
+	lo, hi := d.prevRaw+1, d.inRaw
+	if hi >= len(in.segs) {
+		hi = len(in.segs) - 1
 	}
 	for i := lo; i <= hi && i < len(in.segs); i++ {
 		if i == 0 {
@@ -465,7 +506,7 @@ func classifyPathDiff(d *pathDiff, s string, in *pathInfo) string {
 		}
 	}
 	suffix := ""
-	if d.inIdx > 0 && d.inIdx <= len(norm) && norm[d.inIdx-1].k == 'Z' {
+	if d.prevRaw >= 0 && in.segs[d.prevRaw].k == 'Z' {
 		suffix = ":after-closepath"
 	}
 	return "NEW:path:segment-differs:" + d.cat + suffix
